@@ -364,7 +364,9 @@ func GetHTTPRequest(ctx *core.Context, r *http.Request) (map[string]interface{},
 				return nil, err
 			}
 
-			if js[0] == '{' {
+			if len(js) == 0 {
+				// Nothing to parse.
+			} else if js[0] == '{' {
 				// If the body looks like JSON, treat it as JSON.
 				if err = json.Unmarshal(js, &m); err != nil {
 					return nil, err
